@@ -350,6 +350,7 @@ struct ActiveCase {
   std::vector<std::pair<int64_t, std::vector<uint8_t>>> requests;   // (submit offset ns, master bytes)
   long echoCorruptAt = -1;
   std::vector<AnswerDef> answers;
+  std::vector<AnswerDef> earlierAnswers;     // registered first under keys that `answers` registers again (the later registration counts)
   std::string desc;
   bool respBurst = false; // the addressed participant's acknowledge + response arrive in one piece
   int burst = 1;          // foreign traffic reaches the host in arrival bursts of up to that many bytes
@@ -404,7 +405,7 @@ static bool runActive(Rng& r, const ActiveCase& c, const std::string& tag, const
   for (int i = 0; i < 4; i++) w.bus.script.push_back(s);
   for (auto& it : c.items) w.bus.script.push_back(it);
   // answers (C15)
-  for (auto& a : c.answers) {
+  for (int pass = 0; pass < 2; pass++) for (auto& a : pass == 0 ? c.earlierAnswers : c.answers) {
     SlaveSymbolString resp;
     for (uint8_t b : a.resp) resp.push_back(b);
     w.handler->setAnswer(a.anySrc ? SYN : a.src, a.dst, a.pb, a.sb, a.id.data(), a.id.size(), resp);
@@ -529,6 +530,7 @@ static void modeActive(long ncases, const std::string& which) {
     c.cfg.readOnly = which == "c03" && r.chance(1, 8);
     c.cfg.generateSyn = which == "c03" && r.chance(1, 4);
     c.busSynMode = c.cfg.generateSyn ? r.range(0, 2) : 0;
+    bool corruptFirstAutoSyn = c.cfg.generateSyn && c.busSynMode == 1 && r.chance(1, 2);
     c.respBurst = r.chance(1, 3);
     c.burst = which == "c03" && r.chance(1, 3) ? r.pick(std::vector<int>{2, 3, 5}) : 1;
     bool hostileTraffic = which == "c03";
@@ -540,6 +542,7 @@ static void modeActive(long ncases, const std::string& which) {
       for (unsigned e = 0; e <= c.cfg.busLostRetries + 1; e++) c.peers.push_back(randPeer(r, which == "c02" ? r.chance(1, 2) : r.chance(1, 5)));
     }
     if (r.chance(1, which == "c02" ? 3 : 6)) c.echoCorruptAt = r.range(0, 40);
+    if (corruptFirstAutoSyn) c.echoCorruptAt = 0;      // the host's first byte on a bus without generator is its first AUTO-SYN
     Item s; s.kind = Item::SYN;
     if (hostileTraffic) {
       int nf = r.range(2, 12);
@@ -560,6 +563,18 @@ static void modeActive(long ncases, const std::string& which) {
         for (int i = r.range(0, 3); i > 0; i--) { s.gap = (int64_t)r.range(20, 44) * MS; c.items.push_back(s); }
       }
       s.gap = 0;
+    }
+    // stray symbols between SYNs while requests wait for their arbitration slot (a lone escape symbol leaves state behind)
+    if (r.chance(1, 3)) {
+      std::vector<Item> pre;
+      for (int k = r.range(1, 4); k > 0; k--) {
+        Item sy; sy.kind = Item::SYN; sy.gap = (int64_t)r.range(20, 44) * MS;
+        Item nz; nz.kind = Item::BYTES; nz.bytes = r.pick(std::vector<std::vector<uint8_t>>{{0xA9}, {0xA9}, {0xA9, 0x00}, {0x55}, {0xA9, 0x01}});
+        pre.push_back(sy); pre.push_back(nz);
+      }
+      if (r.chance(1, 2)) c.items.insert(c.items.begin(), pre.begin(), pre.end()); else c.items.insert(c.items.end(), pre.begin(), pre.end());
+      // spread over the time in which the requests are submitted
+      if (!c.requests.empty() && r.chance(1, 2)) { Item gp; gp.kind = Item::GAP; gp.gap = c.requests[0].first > 200 * MS ? c.requests[0].first - 150 * MS : 50 * MS; c.items.insert(c.items.begin(), gp); }
     }
     c.desc = which + " burst=" + std::to_string(c.burst) + " respburst=" + std::to_string(c.respBurst) + " bussyn=" + std::to_string(c.busSynMode) + " nreq=" + std::to_string(nreq) + " foreign=" + std::to_string(c.items.size()) + " echoCorruptAt=" + std::to_string(c.echoCorruptAt);
     current(which + " case " + std::to_string(ci));
@@ -607,7 +622,18 @@ static void modeC15(long ncases) {
       // keys must be unique (a later registration with the same key replaces the earlier one)
       bool dup = false;
       for (auto& o : c.answers) if (o.dst == a.dst && o.pb == a.pb && o.sb == a.sb && o.id == a.id && ((o.anySrc == a.anySrc && (a.anySrc || o.src == a.src)) || specIsMaster(a.dst))) dup = true;   // for master destinations: one entry per ID (which of a source-specific and an any-source entry with different tail lengths wins is not specified)
-      if (!dup) c.answers.push_back(a);
+      if (!dup) {
+        c.answers.push_back(a);
+        if (r.chance(1, 3)) {
+          // the same key had been registered before with other data (answer command issued again, replaced ident answer): the later one counts
+          AnswerDef e = a;
+          e.resp.clear();
+          if (specIsMaster(a.dst)) { size_t tl = (a.resp[0] + 1 + r.below(5)) % 7; e.resp.push_back((uint8_t)tl); for (size_t i = 0; i < tl; i++) e.resp.push_back(0); }
+          else { size_t sn = (size_t)r.range(0, 16); e.resp.push_back((uint8_t)sn); for (size_t i = 0; i < sn; i++) e.resp.push_back(biasedByte(r)); if (e.resp == a.resp) e.resp[0] = (uint8_t)(sn ? 0 : 1), e.resp.resize(1 + e.resp[0], 0x5a); }
+          c.earlierAnswers.push_back(e);
+          st.n["answers_registered_twice"]++;
+        }
+      }
     }
     // telegrams from foreign masters
     Item s; s.kind = Item::SYN;
@@ -637,6 +663,16 @@ static void modeC15(long ncases) {
       it.origins.assign(it.bytes.size(), 'F');
       if (badCrc || r.chance(1, 3)) it.repeatBytes = specWire(m);
       for (int q = 0; q < 2; q++) it.answerReaction[q] = r.chance(2, 3) ? 0 : r.range(1, 3);
+      if (badCrc && r.chance(1, 2)) {
+        // another participant (e.g. the real device on an address the host answers for as well) rejects the damaged command with
+        // NAK and the requester repeats it right away: the repetition is a history inside one telegram the host has to follow
+        it.bytes.push_back(0xFF); it.origins.push_back('S');
+        std::vector<uint8_t> good = specWire(m);
+        for (uint8_t b : good) { it.bytes.push_back(b); it.origins.push_back('F'); }
+        it.repeatBytes.clear();
+        if (r.chance(1, 2)) it.answerReaction[0] = 1;      // ... and the response is rejected once (twice when [1] is NAK too)
+        st.n["third_party_nak_then_repeat"]++;
+      }
       c.items.push_back(s);
       c.items.push_back(it);
       for (int i = r.range(0, 2); i > 0; i--) c.items.push_back(s);
